@@ -2,6 +2,7 @@ package main
 
 import (
 	"fmt"
+	"regexp"
 	"strings"
 
 	"golang.org/x/tools/go/ssa"
@@ -25,6 +26,8 @@ func rulesC03(c *Ctx, r *Report) {
 	rulesYDPkg(c, r, "formats/sam") // Reader returns exactly the records: a consumer that stops early is obeyed, nothing is yielded after a stop
 	r.floor("REJECT-ONLY", rulesRejectOnly(c, r, c.role("sam.parseLine"), "formats/sam.parseLine", samRejectCfg()), 6, "errors constructed and external error sources in parseLine, parseInts, parseTags, splitTag (7 constructed, Atoi x2, ParseFloat, DecodeString today)")
 }
+
+var samErrAtom = regexp.MustCompile(`^\((.+ (!=|==) (nil|load\(G:EOF\))|(nil|load\(G:EOF\)) (!=|==) .+)\)$`)
 
 // rulesSamSkip (SAM-SKIP): whether a line of the input reaches parseLine depends only on the read error, on the
 // line being empty, and on the header test ('@' at the start of its first field) — never on anything else the line
@@ -84,6 +87,8 @@ func rulesSamSkip(c *Ctx, r *Report) {
 			sawEmpty = true
 		case strings.Contains(a, "ReadString(") && (strings.Contains(a, "nil") || strings.Contains(a, "G:EOF")):
 			// the read error
+		case samErrAtom.MatchString(a):
+			// the read error as a line-reading helper reports it: a comparison with nil or io.EOF
 		case strings.Contains(a, "call:strings.HasPrefix(") && strings.Contains(a, "\"@\")") && strings.Contains(a, "call:strings.Split("+text):
 			// the header test on the first field
 		case a == "(0 < builtin:len(call:strings.Split("+text+", \"\\t\")))":
